@@ -55,7 +55,14 @@ def obj_method(ev, recv, o, meth, args, kwargs, node):
         rel, cn = o.cls.split(":")
         r = source.find_method(rel, cn, meth)
         if r is not None:
-            return ev.registry.call_repo(ev, r[0], r[1], [recv] + args, kwargs, node, recv_cls=o.cls)
+            from .engine import dotted
+            decos = [dotted(x) for x in r[2].decorator_list]
+            first = [recv]
+            if "staticmethod" in decos:
+                first = []
+            elif "classmethod" in decos:
+                first = [VClass(o.cls)]
+            return ev.registry.call_repo(ev, r[0], r[1], first + args, kwargs, node, recv_cls=o.cls)
         mm = ev.registry.mixin_method(ev, recv, o, meth) if ev.registry else None
         if mm is not None:
             return mm(ev, recv, args, kwargs, node)
